@@ -72,6 +72,9 @@ class Sim:
         self.root = root
         self.w = World1(role, S=S, T=T)
         self.w.c.raise_filter = lambda m: str(m.get(11, "")).startswith("boom")
+        if variant == "hookfail":
+            # failing application callback: on_state_change raises for the resend states
+            self.w.c.raise_on_state = {"RESENDREQ_AWAITING", "RESENDREQ_HANDLING"}
         self.w.connect()
         self.outstanding = None  # (E0, n0) of the ResendRequest the endpoint has out
         self.last_delivered = 0
@@ -83,7 +86,7 @@ class Sim:
     @classmethod
     def build(cls, hist):
         s = cls(hist[0])
-        first = ("logon", 1) if hist[0][2] == "clean" else ("logon", 3)
+        first = ("logon", 3) if hist[0][2] == "logon_gap" else ("logon", 1)
         v = s.apply(first)
         assert v is None or True
         s.root_violation = v
@@ -102,7 +105,7 @@ class Sim:
     def key(self):
         c = self.w.c
         rows = tuple((d, seq) for (_, d, seq, _m) in journal_rows(self.w.j))
-        return (self.root[1], conn_key(c), rows, self.outstanding, self.last_delivered, self.dead)
+        return (self.root[1], self.root[2] == "hookfail", conn_key(c), rows, self.outstanding, self.last_delivered, self.dead)
 
     def close(self):
         self.w.close()
@@ -192,7 +195,8 @@ class Sim:
 
 
 def roots():
-    return [(("root", role, var, CFG["S"], CFG["T"]),) for role in ("acceptor", "initiator") for var in ("clean", "logon_gap")]
+    rs = [(("root", role, var, CFG["S"], CFG["T"]),) for role in ("acceptor", "initiator") for var in ("clean", "logon_gap")]
+    return rs + [(("root", "acceptor", "hookfail", CFG["S"], CFG["T"]),)]
 
 
 def run(ctx):
@@ -204,7 +208,7 @@ def run(ctx):
                 "numbers below/at/above expectation) after a clean Logon and after a Logon that revealed a gap, both "
                 "roles; canonical key = connection+session attributes, journal row numbers, monitor state; "
                 "non-trivial = history contains a frame numbered above the expected number")
-    ctx.bounds = {"depth": depth, "numbers": list(CFG["nums"]), "menu": len(menu(CFG["nums"])), "roots": 4}
+    ctx.bounds = {"depth": depth, "numbers": list(CFG["nums"]), "menu": len(menu(CFG["nums"])), "roots": 5}
     # root violations (the Logon itself)
     for r in roots():
         s = Sim.build(r)
